@@ -78,7 +78,7 @@ def znormalizeSpeakerData(
     if not filterZeroValues:
         featValues = znormalizeData(featValues)
     else:
-        featValuesNoZeroes = [val for val in featValues if val != ""]
+        featValuesNoZeroes = [val for val in featValues if val != 0]
         meanVal = statistics.mean(featValuesNoZeroes)
         stdDevVal = statistics.stdev(featValuesNoZeroes)
 
